@@ -155,9 +155,57 @@ func firstKeyFor(b *Body) bool {
 	return false
 }
 
+// loneCRThenDoubledIntroducer: some string in expression position (attribute
+// value or map key at any depth; labels are literal in JSON) contains a CR not
+// followed by LF and, later, `$${` or `%%{` (which the template-mode twin has
+// to write as `$$${` / `%%%{`).
+func loneCRThenDoubledIntroducer(b *Body) bool {
+	str := func(s string) bool {
+		for i := 0; i < len(s); i++ {
+			if s[i] == '\r' && (i+1 >= len(s) || s[i+1] != '\n') {
+				rest := s[i+1:]
+				if strings.Contains(rest, "$${") || strings.Contains(rest, "%%{") {
+					return true
+				}
+			}
+		}
+		return false
+	}
+	var lit func(l *Lit) bool
+	lit = func(l *Lit) bool {
+		if l.Kind == kStr && str(l.Str) {
+			return true
+		}
+		for _, k := range l.Keys {
+			if str(k) {
+				return true
+			}
+		}
+		for _, e := range l.Elems {
+			if lit(e) {
+				return true
+			}
+		}
+		return false
+	}
+	for _, it := range b.Items {
+		if it.Block {
+			if loneCRThenDoubledIntroducer(it.Body) {
+				return true
+			}
+		} else if lit(it.Val) {
+			return true
+		}
+	}
+	return false
+}
+
 func classFor(clause string, d Data, doc *Body) string {
 	if (clause == "generated-unparseable" || clause == "encode-panic") && firstKeyFor(doc) {
 		return "c16.generated-unparseable.map-first-key-for"
+	}
+	if (clause == "json-template-value-mismatch" || clause == "hclsimple-json-template-value-mismatch") && loneCRThenDoubledIntroducer(doc) {
+		return "c16.json-template-value-mismatch.lone-cr-then-doubled-introducer"
 	}
 	return "c16." + clause + "." + d.Family
 }
@@ -289,19 +337,56 @@ func judgeRoundTrip(d Data, rt reflect.Type, vp reflect.Value) engine.Outcome {
 	return engine.Pass(d.Type + "\x00" + string(srcs[len(srcs)-1].src))
 }
 
+// editLine deletes ("line-del") or duplicates ("line-dup") line n of src.
+func editLine(src []byte, op string, n int) ([]byte, bool) {
+	lines := strings.SplitAfter(string(src), "\n")
+	if n >= len(lines) || lines[n] == "" {
+		return nil, false
+	}
+	var sb strings.Builder
+	for i, l := range lines {
+		if i == n {
+			if op == "line-dup" {
+				sb.WriteString(l + l)
+			}
+			continue
+		}
+		sb.WriteString(l)
+	}
+	return []byte(sb.String()), true
+}
+
 // ---- oracle 3: perturbed documents ------------------------------------------
 
 func judgePert(d Data, rt reflect.Type, vp reflect.Value) engine.Outcome {
 	p := *d.Pert
 	_, doc := toBody(vp.Elem())
-	target, ok := p.apply(doc)
-	if !ok {
-		return engine.Pass("") // not applicable to this document (only after shrinking)
+	var target *Item
+	ok := true
+	if p.Syntax != "encoded" {
+		if target, ok = p.apply(doc); !ok {
+			return engine.Pass("") // not applicable to this document (only after shrinking)
+		}
 	}
 	var body hcl.Body
 	var src []byte
 	var pdiags hcl.Diagnostics
 	switch p.Syntax {
+	case "encoded":
+		// line edits of the real encoder's output (target == nil: no expectation beyond "no panic")
+		enc, pv := encode(func(f *hclwrite.File) { gohcl.EncodeIntoBody(vp.Interface(), f.Body()) })
+		if pv != nil {
+			return engine.Pass("") // reported by the round-trip case of the same value
+		}
+		src, ok = editLine(enc, p.Op, p.Arg)
+		if !ok {
+			return engine.Pass("")
+		}
+		f, diags := hclsyntax.ParseConfig(src, "x.hcl", hcl.InitialPos)
+		pdiags = diags
+		if f != nil {
+			body = f.Body
+		}
 	case "native":
 		src = renderNative(doc)
 		f, diags := hclsyntax.ParseConfig(src, "x.hcl", hcl.InitialPos)
@@ -363,7 +448,7 @@ func judgePert(d Data, rt reflect.Type, vp reflect.Value) engine.Outcome {
 		sums = append(sums, dg.Summary)
 	}
 	sort.Strings(sums)
-	return engine.Pass(fmt.Sprintf("%s/%s%v/%s/%s", d.Type, p.Op, p.Path, p.Syntax, strings.Join(sums, ";")))
+	return engine.Pass(fmt.Sprintf("%s/%s%v#%d/%s/%s", d.Type, p.Op, p.Path, p.Arg, p.Syntax, strings.Join(sums, ";")))
 }
 
 func judge(c engine.Case) engine.Outcome {
